@@ -22,6 +22,8 @@ def harnesses(tier, findings):
     audit = [h for h in _c01._harnesses("quick", findings) if any(k in h.name for k in ("step_accept", "step_read_unmap", "step_read_map_R"))]
     for h in audit:
         h.what = "notification audit (same induction-step harness as C01): " + h.what
+    if tier == "probe":
+        return [blk(1, "refusal", 2, 3, timeout=2400), blk(2, "release", 2, 4, timeout=2400), blk(1, "refusal", 1, 5, timeout=2400), blk(2, "release", 1, 6, timeout=2400)]
     if tier == "quick":
         return [blk(1, "refusal", 1, 3), blk(2, "release", 1, 4), blk(3, "drain", 2, 0, isr=False, timeout=900, solver="cadical")] + audit
     return [blk(1, "refusal", 2, 4, timeout=3000), blk(2, "release", 2, 6, timeout=3500), blk(3, "drain", 3, 0, isr=False, solver="cadical")] + audit
